@@ -486,15 +486,77 @@ def pristine_process_reference(rec, pvl, dialect, seed, tier):
             return
 
 
+BORDERLINE = (
+    "1999/12/31T23:59", "1999/365T12:00", "1999/12/31", "31-12-1999",
+    "1999-12-31 23:59", "1999.12.31", "12h30", "T23:59", "1999-12-31T", "1999W52",
+    "19991231T2359", "2001-001T1200", "24:00", "12:60", "12:00+05", "1e", "0x1F",
+    "1_000", "+", "-", "1-", "N/A", "n/a", "Null.", "TRUE.", "#ff", "a#b", "16#FF",
+    "16#FF#x", "2#2#", "+2#-1#", "1.2.3", "1,5", ".", "..", "e5", "inf", "NaN",
+    "-inf", "&ref", "^ptr", "a:b", "a::b", "a/b", "a\\b", "%", "@", "~", "`", "$1",
+    "|", "!", "?", "[x]", "x*", "*/", "/*", "a+b", "C++", "R+G", "x-", "caf\xe9",
+)
+
+
+def borderline_strings(rec, pvl, i):
+    """Strings near the border of the quoting decision, written by a worker
+    that has done nothing yet, then again - by the same encoder object and by
+    a fresh one - after the process has loaded and written labels in every
+    dialect and configuration (vlib/prelude.py): same text (or same refusal)
+    all three times."""
+    from .. import prelude
+    col = pvl.collections
+
+    def dump(enc, s):
+        try:
+            return enc.encode(col.PVLModule([("k", s), ("seq", [s, 1])]))
+        except (ValueError, TypeError) as e:
+            return ("refused", type(e).__name__)
+        except Exception as e:
+            return ("raised", type(e).__name__)
+
+    first, encs = {}, {}
+    for dialect in DIALECTS:
+        encs[dialect] = make_encoder(pvl, dialect, {})
+        for s in BORDERLINE:
+            first[dialect, s] = dump(encs[dialect], s)
+    prelude.hostile_history(pvl, 2 * i + 1)
+    try:
+        pvl.loads("a = 1\nb = 2000-01-01T12:00\nc =\nEND\n")
+        pvl.load(io.StringIO("GROUP = g\n x = 'y'\nEND_GROUP\n"))
+    except Exception:
+        pass
+    for dialect in DIALECTS:
+        for s in BORDERLINE:
+            for who, enc in (("same-encoder-object", encs[dialect]),
+                             ("fresh-encoder", make_encoder(pvl, dialect, {}))):
+                again = dump(enc, s)
+                rec.count("borderline_string_dumps_compared")
+                rec.case((dialect, "borderline", s, who), True)
+                if again != first[dialect, s]:
+                    rec.violation(
+                        CHECK, dialect, "dump-depends-on-process-history",
+                        {"here": "text" if isinstance(again, str) else again[0],
+                         "pristine": "text" if isinstance(first[dialect, s], str)
+                         else first[dialect, s][0], "borderline_string": True},
+                        {"dialect": dialect, "string": s, "encoder": who,
+                         "before_any_other_call": repr(first[dialect, s])[:300],
+                         "after_the_process_history": repr(again)[:300]},
+                        f"{s!r}: {first[dialect, s]!r:.200} before, {again!r:.200} after "
+                        f"loads and dumps in other dialects")
+
+
 def shard(i, n, tier, seed, rec, hb):
     pvl = common.import_pvl()
     # forked before this worker has written anything
     pristine = common.Pristine(lambda req: first_dump(pvl, req[0], req[1]))
+    if i % 4 == 0:
+        borderline_strings(rec, pvl, i)
     # (the pristine copy exists now; this worker itself may have a past)
     from .. import prelude
     rec.count("workers_with_a_hostile_history"
-              if prelude.hostile_history(pvl, i) else "workers_starting_fresh")
-    per = 4000 if tier == "quick" else 800000
+              if prelude.hostile_history(pvl, i) or i % 4 == 0
+              else "workers_starting_fresh")
+    per = 4000 if tier == "quick" else 240000
     try:
         for dialect in common.rotated(DIALECTS, i):
             for j in range(i, per, n):
@@ -518,7 +580,8 @@ def finish_kwargs(rec, tier):
                                    "new_container_texts_compared",
                                    "modules_with_a_value_of_a_user_class",
                                    "new_container_conversions",
-                                   "first_dumps_compared_with_a_pristine_process"))
+                                   "first_dumps_compared_with_a_pristine_process",
+                                   "borderline_string_dumps_compared"))
 
 
 def replay(data):
